@@ -85,6 +85,9 @@ type gen struct {
 	logger  string
 	enumPool []string
 	dead    bool
+	hasVal  map[uint32]map[string]bool // committed values known to the generator
+	txnRes  map[string]bool            // (off|col) that had a possibly resizing merge in the open transaction
+	txnSet  map[string]bool            // (off|col) written in the open transaction
 }
 
 func (g *gen) emit(line string) string {
@@ -188,13 +191,32 @@ func (g *gen) hasMergeResize(c genCol) bool {
 	return (c.kind == "string" && c.merge == "concat") || (c.kind == "record" && c.merge == "concat")
 }
 
-// writeAction produces one set/merge/bool action for a random column
-func (g *gen) writeAction(allowMerge bool) string {
+// writeAction produces one set/merge/bool action for a random column. In the clean stream a merge
+// is only issued onto a value the row is known to hold (finding D11) and nothing follows a possibly
+// resizing merge on the same row and column inside one transaction (finding D12).
+func (g *gen) writeAction(allowMerge bool) string { return g.writeActionAt(0, false, allowMerge) }
+
+func (g *gen) writeActionAt(off uint32, known bool, allowMerge bool) string {
 	if len(g.cols) == 0 {
 		return ""
 	}
 	c := g.cols[g.r.Intn(len(g.cols))]
+	key := fmt.Sprintf("%d|%s", off, c.name)
 	merge := allowMerge && g.r.Intn(3) == 0
+	if !g.p.dirty {
+		if known && g.txnRes[key] {
+			return ""
+		}
+		if merge && !(known && g.hasVal[off][c.name] && !g.txnSet[key]) {
+			merge = false
+		}
+		if merge && g.hasMergeResize(c) {
+			g.txnRes[key] = true
+		}
+	}
+	if known {
+		g.txnSet[key] = true
+	}
 	switch {
 	case isNum(c.kind):
 		v := g.numValue(c.kind, c.merge != "" || g.r.Intn(2) == 0)
@@ -230,6 +252,16 @@ func (g *gen) actions(n int, allowMerge bool) string {
 	var acts []string
 	for i := 0; i < n; i++ {
 		if a := g.writeAction(allowMerge); a != "" {
+			acts = append(acts, a)
+		}
+	}
+	return strings.Join(acts, " ")
+}
+
+func (g *gen) actionsAt(off uint32, n int) string {
+	var acts []string
+	for i := 0; i < n; i++ {
+		if a := g.writeActionAt(off, true, true); a != "" {
 			acts = append(acts, a)
 		}
 	}
@@ -456,6 +488,8 @@ func (g *gen) txn() {
 	g.nTxn++
 	tid := fmt.Sprintf("t%d", g.nTxn)
 	g.emit("p begin " + tid)
+	g.txnRes = map[string]bool{}
+	g.txnSet = map[string]bool{}
 	nops := 1 + r.Intn(8)
 	written := map[uint32]bool{}
 	deleted := map[uint32]bool{}
@@ -493,12 +527,11 @@ func (g *gen) txn() {
 			if !g.p.dirty && deleted[off] {
 				continue
 			}
-			allowMerge := true
-			acts := g.actions(1+r.Intn(3), allowMerge)
+			acts := g.actionsAt(off, 1+r.Intn(3))
 			if r.Intn(4) == 0 && len(g.cols) > 0 {
 				acts += " get:" + g.cols[r.Intn(len(g.cols))].name
 			}
-			g.emit(fmt.Sprintf("p %s at %d %s", tid, off, acts))
+			g.emit(strings.TrimRight(fmt.Sprintf("p %s at %d %s", tid, off, acts), " "))
 			if written[off] {
 				g.feat("several-writes-one-row")
 			}
@@ -556,7 +589,14 @@ func (g *gen) txn() {
 		return
 	}
 	g.emit("p commit " + tid)
+	for o := range written {
+		delete(g.hasVal, o) // unknown until the next dump
+	}
+	for o := range deleted {
+		delete(g.hasVal, o)
+	}
 	for o := range inserted {
+		delete(g.hasVal, o)
 		g.live[o] = true
 		if o >= 16384 {
 			g.feat("row-in-chunk>=1")
@@ -570,6 +610,13 @@ func (g *gen) txn() {
 func (g *gen) keyOp(tid string, inserted, deleted map[uint32]bool, insertedOK *[]uint32) {
 	r := g.r
 	key := g.keys[r.Intn(len(g.keys))]
+	if !g.p.dirty {
+		// one key operation per key and transaction in the clean stream (finding D14)
+		if g.txnSet["key|"+key] {
+			return
+		}
+		g.txnSet["key|"+key] = true
+	}
 	switch x := r.Intn(10); {
 	case x < 3:
 		out := g.emit(strings.TrimRight(fmt.Sprintf("p %s inskey %s %s", tid, key, g.actions(r.Intn(3), false)), " "))
@@ -579,14 +626,14 @@ func (g *gen) keyOp(tid string, inserted, deleted map[uint32]bool, insertedOK *[
 		}
 		g.feat("inskey")
 	case x < 6:
-		out := g.emit(strings.TrimRight(fmt.Sprintf("p %s upskey %s %s", tid, key, g.actions(1+r.Intn(2), true)), " "))
+		out := g.emit(strings.TrimRight(fmt.Sprintf("p %s upskey %s %s", tid, key, g.actions(1+r.Intn(2), g.p.dirty)), " "))
 		if off, ok := parseOff(out); ok {
 			inserted[off] = true
 			*insertedOK = append(*insertedOK, off)
 		}
 		g.feat("upskey")
 	case x < 7:
-		g.emit(strings.TrimRight(fmt.Sprintf("p %s qkey %s %s get:%s", tid, key, g.actions(r.Intn(2), true), g.keyCol), " "))
+		g.emit(strings.TrimRight(fmt.Sprintf("p %s qkey %s %s get:%s", tid, key, g.actions(r.Intn(2), g.p.dirty), g.keyCol), " "))
 		g.feat("qkey")
 	case x < 9:
 		out := g.emit(fmt.Sprintf("p %s delkey %s", tid, key))
@@ -595,8 +642,13 @@ func (g *gen) keyOp(tid string, inserted, deleted map[uint32]bool, insertedOK *[
 		}
 	default:
 		// re-key an existing row
-		if off, ok := g.pickLive(); ok {
-			g.emit(fmt.Sprintf("p %s at %d key:%s", tid, off, g.keys[r.Intn(len(g.keys))]))
+		if off, ok := g.pickLive(); ok && (g.p.dirty || !deleted[off]) {
+			nk := g.keys[r.Intn(len(g.keys))]
+			if !g.p.dirty && (g.txnSet["key|"+nk] && nk != key) {
+				return
+			}
+			g.txnSet["key|"+nk] = true
+			g.emit(fmt.Sprintf("p %s at %d key:%s", tid, off, nk))
 			g.feat("rekey")
 		}
 	}
@@ -816,6 +868,16 @@ func (g *gen) syncLive(dump string) {
 		}
 	}
 	g.live = live
+	if d, ok := parseDump(dump); ok && !d.hashed {
+		g.hasVal = map[uint32]map[string]bool{}
+		for off, r := range d.rows {
+			m := map[string]bool{}
+			for c := range r {
+				m[c] = true
+			}
+			g.hasVal[off] = m
+		}
+	}
 }
 
 func (g *gen) dumpAll() {
@@ -829,6 +891,7 @@ func (g *gen) dumpAll() {
 }
 
 func (g *gen) snapshotCycle() {
+	g.syncLive(g.emit("p dump"))
 	g.emit("p snapshot s")
 	caps := []int{0, 1, 64, 1024, 70000}
 	g.emit(fmt.Sprintf("new q cap=%d logger=none", caps[g.r.Intn(len(caps))]))
@@ -905,7 +968,8 @@ func (g *gen) lateColumn() {
 }
 
 func genStoreCase(r *rand.Rand, p profile, rep *Report, id int) Case {
-	g := &gen{r: r, p: p, impl: newStoreImpl().(*storeImpl), feats: map[string]bool{}, rep: rep, live: map[uint32]bool{}, idxOn: map[string]string{}}
+	g := &gen{r: r, p: p, impl: newStoreImpl().(*storeImpl), feats: map[string]bool{}, rep: rep, live: map[uint32]bool{}, idxOn: map[string]string{},
+		hasVal: map[uint32]map[string]bool{}, txnRes: map[string]bool{}, txnSet: map[string]bool{}}
 	defer g.impl.Close()
 	g.setup()
 	steps := 6 + r.Intn(p.maxSteps)
@@ -918,6 +982,9 @@ func genStoreCase(r *rand.Rand, p profile, rep *Report, id int) Case {
 		switch {
 		case x < 22:
 			g.txn()
+			if r.Intn(2) == 0 && len(g.live) < 3000 {
+				g.dumpAll()
+			}
 		case x < 24:
 			g.holes()
 		case x < 27:
